@@ -1296,6 +1296,7 @@ package sarama
 //@   ensures[fresh_messages @C18] err == nil ==> forall k :: 0 <= k && k < len(msgs) ==> msgs[k].chained == 0 && msgs[k].delivered == 0 && msgs[k] != nil
 //@   ensures[offset_monotone @C03] child.offset >= old(child.offset)
 //@   ensures[advances_past_every_batch @C11 @C03] err == nil && nRecs > 0 ==> child.offset >= old(child.offset) + len(block.RecordsSet)
+//@   ensures[empty_response_skips_only_at_the_fetch_limit @C03] err == nil && nRecs == 0 && child.offset != old(child.offset) ==> child.offset == old(child.offset) + 1 && child.conf.Consumer.Fetch.Max > 0 && old(child.fetchSize) == child.conf.Consumer.Fetch.Max
 //@   ensures[nil_on_error] err != nil ==> len(msgs) == 0
 //@   ensures[delivered_below_offset @C03] err == nil ==> forall k :: 0 <= k && k < len(msgs) ==> msgs[k].Offset >= old(child.offset) && msgs[k].Offset < child.offset
 //@   loop 0: invariant child.offset >= old(child.offset) + $i
